@@ -12,14 +12,17 @@
      cwd      : "home" | "moved"                   (working directory of the calling process)
      res      : "none" | "ready"                   (results evaluated)
      tool     : behaviour of the external program, constant for a behaviour:
-                "ok" | "reordered" | "exit3" | "garbage" | "missing"
+                "ok" | "reordered" | "rotated" | "exit3" | "garbage" | "missing" | "badopt"
      failed   : TRUE after a failed launch (the run has ended; nothing else is specified)
    Step(S, c) = S' extended with oc (outcome) and out (returned value).
    oc in {"ok", "AppStateError", "TimeoutError", "Rejected"} *)
 EXTENDS Integers, Sequences, FiniteSets, TLC
 
 AppStates == {"CREATED", "RUNNING", "FINISHED", "JOINED", "CANCELLED"}
-Tools == {"ok", "reordered", "exit3", "garbage", "missing"}
+Tools == {"ok", "reordered", "rotated", "exit3", "garbage", "missing", "badopt"}
+\* "missing": the binary cannot be found (OSError); "badopt": an option setter was given a value
+\* the launcher cannot pass on (TypeError) - both are failures to launch
+LaunchFails == {"missing", "badopt"}
 Calls == {"start", "join", "join_t", "cancel", "state", "setter", "get_alignment",
           "get_order", "get_tree", "get_exit_code", "get_stdout", "get_command",
           "get_process", "proc_exits", "refresh"}
@@ -50,10 +53,10 @@ EndRun(S, newApp, newRes) ==
             !.proc = IF S.proc = "running" THEN "exited" ELSE S.proc, !.cwd = "home"]
 
 \* what the external program's output means, mapped back to input order
-OrderOf(tool) == IF tool = "reordered" THEN "reversed" ELSE "identity"
+OrderOf(tool) == IF tool = "reordered" THEN "reversed" ELSE IF tool = "rotated" THEN "rotated" ELSE "identity"
 
 Evaluate(S) ==
-  IF S.tool \in {"ok", "reordered"}
+  IF S.tool \in {"ok", "reordered", "rotated"}
     THEN With(EndRun(S, "JOINED", "ready"), "ok", "")
     ELSE With(EndRun(S, "CANCELLED", "none"), "Rejected", "")   \* non-zero exit / unparsable output
 
@@ -65,7 +68,7 @@ Step(S, c) ==
   ELSE IF c = "refresh" THEN With([S EXCEPT !.app = "FINISHED"], "ok", "")
   ELSE IF S.app \notin Allowed(c) THEN With(S, "AppStateError", "")
   ELSE CASE c = "start" ->
-              IF S.tool = "missing"
+              IF S.tool \in LaunchFails
                 THEN With([EndRun(S, "CANCELLED", "none") EXCEPT !.failed = TRUE], "Rejected", "")
                 ELSE With([S EXCEPT !.app = "RUNNING", !.proc = "running"], "ok", "")
          [] c = "join" -> Evaluate(S)
